@@ -26,7 +26,7 @@ from .embed import forwarded_call
 
 U = '_signatures.forwards'
 L_COMPOSE = clause(U, 'law:compose', ['C04'], 'B')
-C_SOUND = clause(U, 'post:sound', ['C04'], 'B')
+C_SOUND = clause(U, 'post:sound', ['C04', 'C07', 'C05'], 'B')    # also the narrowing step of discovery: accepted => the wrapper's own def accepts
 C_EXACT = clause(U, 'post:exact', ['C04'], 'B')
 C_ONLY_VE = clause(U, 'raises:only_ValueError', ['C15'], 'B')
 C_WF = clause(U, 'post:wellformed', ['C15'], 'B')
